@@ -54,6 +54,12 @@ def scenarios(tier):
                      post_cmds=post, extra_line=(7, "partial line before the dependencies:", ("top", "a", "b", "c"))), 0 if q else 1))
     L.append((SC.scn("noisy-non-utf8-byte-j1", noisy_world(16), ["redo --no-color top"], visible=VIS, log_mode=True,
                      post_cmds=post, extra_line=(8, "bad . byte", ("top", "a", "b", "c"))), 0 if q else 1))
+    # a target built twice in one run (a script that runs `redo x` twice): every execution's lines are output of that target
+    tw = World("noisy-twice", {"s": ["0", "1"]},
+               {"top.do": [S(seq=[("redo", ["x"]), ("redo", ["x"])], noise=1)], "x.do": [S(deps=["s"], noise=1)]},
+               ["top", "x"], ["top"])
+    L.append((SC.scn("noisy-target-built-twice-in-one-run-j1", tw, ["redo --no-color top"], visible=VIS, log_mode=True,
+                     post_cmds=post, times={"x": 2}), 0))
     if not q:
         L.append((SC.scn("noisy-ifchange-j1", w, ["redo-ifchange top"], visible=VIS, log_mode=True, post_cmds=post), 2))
         L.append((SC.scn("noisy-record-like-line-j1", noisy_world(2), ["redo --no-color top"], visible=VIS, log_mode=True,
@@ -140,6 +146,12 @@ def judge_stream(name, pairs, targets, scn, out):
                              "stream": name, "target": t, "seq": seq}, {"count": n}))
     for t, seqs in seen.items():
         seqs = [x for x in seqs if x not in (6, 7, 8)]
+        n = (scn.get("times") or {}).get(t, 1)
+        if n > 1:
+            if seqs != ORDER * n:
+                out.append(({"kind": "lines-of-a-target-built-%d-times-not-shown-%d-times" % (n, n), "scenario": scn["name"], "stream": name,
+                             "target": t}, {"seqs": seqs}))
+            continue
         if seqs != ORDER:
             what = "missing" if len(seqs) < len(ORDER) else ("duplicated" if len(set(seqs)) < len(seqs) else "reordered")
             out.append(({"kind": "log-lines-" + what, "scenario": scn["name"], "stream": name, "target": t}, {"seqs": seqs}))
